@@ -244,7 +244,7 @@ func (c *Ctx) checkRunBrackets() {
 
 func checkC02(c *Ctx) {
 	c.explainf("C02 decides well-formedness of compiled control flow and evaluation order for all programs, by induction over the generator: every relative jump and branch offset, and the break/continue offsets of loops, land exactly on a boundary between the pieces of the emitted sequence (offsets are computed as linear forms over the unknown lengths of the sub-forms; no program is run); each form leaves exactly one value and statements are separated by one pop, on every control path; tail jumps appear only in tail position; every instruction advances or sets the program counter exactly once on success; a call evaluates the callee, then resolves it, then marshals arguments in ascending order pushing each once, then calls; variadic packing rejects too few arguments and pushes exactly one rest value. It does not decide values, truthiness, or that a jump lands on the intended boundary among several valid ones.")
-	c.esReport("ES-J", "ES-D", "ES-T", "ES-MODEL")
+	c.esReport("ES-J", "ES-D", "ES-T", "ES-S", "ES-MODEL")
 	c.note("emission_templates", len(c.es.templates))
 	c.checkIX("", "C02-PC")
 	c.checkStackmarkIdentity("C02-MARK")
